@@ -101,6 +101,7 @@ R_BetweenGuardAndLimit(pp, gg, r) == r >= Guard(pp) /\ r < 2 * Guard(pp)
 R_ProductWraps(pp, gg, r) == pp >= 4 /\ (r - 1) * pp >= MaxU + 1 /\ r <= MaxU - 1
 R_ProductWrapsSmall(pp, gg, r) == pp >= 3 /\ (r - 1) * pp >= MaxU + 1 /\ U((r - 1) * pp) < Pow2(40) /\ r <= MaxU - 1
 R_ProductNegative(pp, gg, r) == (r - 1) * pp > MaxI /\ (r - 1) * pp <= MaxU /\ r <= MaxU - 1
+R_AboveBufferBelowGuard(pp, gg, r) == gg + (r - 1) * pp > ErrVal /\ r < Guard(pp) /\ r >= 1
 R_JustAboveBuffer(pp, gg, r) == gg + (r - 1) * pp > ErrVal /\ gg + (r - 2) * pp <= ErrVal
 
 \* instants
